@@ -7,6 +7,8 @@
 //! * H2 `on_call`      - append-only log of function calls (only while recording)
 //! * H3 `on_heap_mut`  - append-only log of heap cells handed out mutably
 //! * H4 `enter_format` - number of `format_expr_impl` invocations (work done by the formatter)
+//! * H5 `on_env_insert` - log of `Environment::insert` calls that replaced an existing binding of the
+//!   same scope (only while recording)
 
 use crate::values::Value;
 use std::cell::{Cell, RefCell};
@@ -30,6 +32,20 @@ thread_local! {
     static EVAL_ENTRIES: Cell<u64> = const { Cell::new(0) };
     static LOG_PATH: RefCell<Option<Option<String>>> = const { RefCell::new(None) };
     static FORMAT_CALLS: Cell<u64> = const { Cell::new(0) };
+    static ENV_OVERWRITES: RefCell<Vec<(usize, String)>> = const { RefCell::new(Vec::new()) };
+}
+
+/// H5: called by `Environment::insert` before the map is written; `env` is the address of the scope
+/// written to and `replaces` says whether that scope already binds `key`.
+pub fn on_env_insert(env: usize, key: &str, replaces: bool) {
+    if replaces && RECORDING.with(|r| r.get()) {
+        ENV_OVERWRITES.with(|c| c.borrow_mut().push((env, key.to_string())));
+    }
+}
+
+/// Drain the H5 log (scope address, name) of bindings replaced within one scope on the current thread.
+pub fn take_env_overwrites() -> Vec<(usize, String)> {
+    ENV_OVERWRITES.with(|c| std::mem::take(&mut *c.borrow_mut()))
 }
 
 /// H4: called at the top of `formatter::format_expr_impl`.
